@@ -3,7 +3,7 @@
 # (suite passes with patch, demo fails with patch, demo passes without), then store it under /verif/seeded.
 set -u
 PID=$1; N=$2; SRC=$3
-WT=/tmp/confirm_wt
+WT=${CONFIRM_WT:-/tmp/confirm_wt}
 DST=/verif/seeded/${PID}_${N}
 mkdir -p $DST
 cp $SRC/patch.diff $SRC/demo.rs $DST/ 2>/dev/null
